@@ -12,7 +12,7 @@ import (
 
 func init() {
 	register(&propDef{
-		ID: "C07", Level: "other", Run: runC07,
+		ID: "C07", Level: "other", Run: withShared(runC07, share{"C14", runC14, ruleIs("cursor-lockstep")}),
 		Explanation: "Structural conditions under which a game rebuilt from its JSON state is indistinguishable from the live object: (1) no function reachable from an operation writes a field of the runtime wrappers (game, player) or a package-level variable of an engine package - operations change only *GameState; wrapper fields are written only by construction and by the rebuild path; (2) every field in GameState's type closure is exported and JSON-named, has no interface/func/chan type and only int/string map keys, except a derived set that is reported; (3) every read of a derived (non-serialised) field by an operation happens in an activation that first rebuilt it: the pots are re-published before the settlement reads their level lists and the settlement's private ranking fields are only touched on a Result allocated in the same activation; (4) Resume re-enters the recorded event through inverse total symbol tables and every accepted action ends in Resume; (5) every NativeBackend method uses the state handed to it only as the argument of cloneState, builds the engine from the clone, calls the engine method of its own name and returns a clone; cloneState does not store through its argument; (6) the only clock/random sources reachable from operations are the timestamp store and the shuffle, the shuffle runs only in the handler of an event emitted by Start alone, and clock-derived fields are read by no operation. Map-iteration sites are listed, their order-insensitivity is NOT decided; equality of all continuations is NOT decided.",
 		Trusted:     append([]string{"encoding/json field rules (exported fields, tag not \"-\")"}, commonTrusted...),
 		Assumptions: []string{"operations = Start, Resume and the methods of table.Backend on the engine, plus the Player actions they dispatch to"},
